@@ -2,7 +2,8 @@
 # run_on_seed.sh <seed dir name under /verif/seeded> <tier> <check id>... : apply the seeded change to /repo, run checks, undo
 S=/verif/seeded/$1; T=$2; shift 2
 cd /repo && git diff --quiet || { echo "/repo not clean"; exit 2; }
-git -C /repo apply $S/patch.diff || exit 2
+P=$S/patch.diff; [ -f $S/patch_rebased.diff ] && P=$S/patch_rebased.diff
+git -C /repo apply $P || exit 2
 cd /verif
 for c in "$@"; do
   out=$(./check $c --tier $T 2>&1); rc=$?
